@@ -6,8 +6,11 @@
    directories, symlinks followed), "sorted bytewise", "the word itself unless nullglob".
 
    C19_glob_matches_spec covers words with any number of components in which no component is an
-   active "**" (globstar off, or no "**" component).  The "**" walk is modelled and tied to the code
-   by the code leg, and compared with bash by the search, but not proved against a Spec. *)
+   active "**" (globstar off, or no "**" component).  With "**": C19_glob_globstar_partial — every
+   path returned is a path of the tree whose components match ("**" = zero or more levels of
+   non-dot entries), for every file system; on file systems without symbolic links none is missed.
+   Missing: the exact symlink rule of the walk (a symlink to a directory is yielded but not descended)
+   against a Spec, and that the fuel always suffices (both tied by code leg and bash search). *)
 From Verif Require Import Base.Str Expand.Param Expand.ParamSpec Expand.Glob Expand.GlobSpec Proofs.GlobProofs.
 Open Scope N_scope.
 
@@ -19,6 +22,16 @@ Theorem C19_glob_matches_spec : forall fs o w l,
   forall p, p <> [] -> (In p l <-> path_rel fs (o_dot o) (split_slash w []) [] p).
 Proof. exact glob_matches_spec. Qed.
 Print Assumptions C19_glob_matches_spec.
+
+(* words that may contain "**" with globstar on *)
+Theorem C19_glob_globstar_partial : forall fs o w l,
+  all_parts_ok o (split_slash w []) ->
+  glob fs o w = GOk l ->
+  sorted_strs l /\
+  (forall p, p <> [] -> In p l -> path_rel_gs fs o (split_slash w []) [] p) /\
+  (no_symlinks fs -> forall p, p <> [] -> path_rel_gs fs o (split_slash w []) [] p -> In p l).
+Proof. exact glob_globstar_spec. Qed.
+Print Assumptions C19_glob_globstar_partial.
 
 (* set -f / ReadDir2 = nil: no expansion at all *)
 Theorem C19_noglob : forall fs o w, o_noglob o = true -> glob_word fs o w = GOk [w].
